@@ -44,7 +44,7 @@ static void profile(const char *p)
 }
 
 /* ---- configuration lists ---- */
-typedef struct { cfg_t c; int large; } cfgent_t;
+typedef struct { cfg_t c; int large; uint32_t Lforce; int all_by_table; } cfgent_t;
 static cfgent_t *g_cfgs; static size_t g_ncfg, g_capcfg;
 static void add_cfg(int codec, int m, uint32_t k, uint32_t r, uint32_t N1, uint32_t seed, int large)
 {
@@ -53,6 +53,13 @@ static void add_cfg(int codec, int m, uint32_t k, uint32_t r, uint32_t N1, uint3
 	cfgent_t *e = &g_cfgs[g_ncfg++]; memset(e, 0, sizeof *e);
 	e->c.codec = codec; e->c.m = m; e->c.k = k; e->c.r = r; e->c.N1 = N1; e->c.seed = seed; e->large = large;
 }
+
+static void add_cfg_L(int codec, int m, uint32_t k, uint32_t r, uint32_t L)
+{	/* a Reed-Solomon configuration with a given symbol length (k * L on a buffer-size boundary) */
+	size_t before = g_ncfg; add_cfg(codec, m, k, r, L, 0, 1);           /* N1 slot carries L so that the same (k, r) with another L is a new entry */
+	if (g_ncfg > before) { g_cfgs[g_ncfg - 1].c.N1 = 0; g_cfgs[g_ncfg - 1].Lforce = L; }
+}
+static int g_force_api = -1;
 
 static void build_cfg_list(void)
 {
@@ -66,7 +73,17 @@ static void build_cfg_list(void)
 		for (unsigned i = 0; i < sizeof rs_small / sizeof rs_small[0]; i++) if (rs_small[i][0] + rs_small[i][1] <= exh) add_cfg(codec, m, rs_small[i][0], rs_small[i][1], 0, 0, 0);
 		for (unsigned i = 0; i < sizeof rs_small / sizeof rs_small[0]; i++) if (rs_small[i][0] + rs_small[i][1] > exh) add_cfg(codec, m, rs_small[i][0], rs_small[i][1], 0, 0, 1);
 		for (unsigned i = 0; i < sizeof rs_large / sizeof rs_large[0]; i++) add_cfg(codec, m, rs_large[i][0], rs_large[i][1], 0, 0, 1);
+		/* k * L on and next to sizes where a decoder may switch between a fixed and an allocated work buffer (255*16, 4096, ...) */
+		{ static const uint32_t kl[][2] = { {16,255},{8,510},{240,17},{20,204},{16,256},{15,272},{8,255},{4,1020},{128,510},{17,240},{32,128},{2,2040},{1,4080} };
+		  for (unsigned i = 0; i < sizeof kl / sizeof kl[0]; i++) add_cfg_L(codec, m, kl[i][0], kl[i][0] > 200 ? 10 : 4 + (i & 3), kl[i][1]); }
 		if (T) for (int j = 0; j < 40; j++) { uint32_t k = 1 + rng_below(&r, 254); uint32_t rr = 1 + rng_below(&r, 255 - k); add_cfg(codec, m, k, rr, 0, 0, 1); }
+	}
+	if ((g_pf.codecs & 2) && (!strcmp(g_run.prop, "C10") || !strcmp(g_run.prop, "C02") || !strcmp(g_run.prop, "C01"))) {
+		/* RS GF(2^m) accepts k = 1 with any n (known finding of C09; the suite relies on it): n on the 16-bit boundary, every symbol
+		 * handed over in one table */
+		add_cfg(2, 8, 1, 65535, 0, 0, 1); g_cfgs[g_ncfg - 1].all_by_table = 1;
+		add_cfg(2, 4, 1, 65535, 0, 0, 1); g_cfgs[g_ncfg - 1].all_by_table = 1;
+		if (T) { add_cfg(2, 8, 1, 131071, 0, 0, 1); g_cfgs[g_ncfg - 1].all_by_table = 1; add_cfg(2, 8, 1, 65534, 0, 0, 1); g_cfgs[g_ncfg - 1].all_by_table = 1; }
 	}
 	if (g_pf.codecs & 4) {
 		/* GF(2^4): every 1<=k<n<=15 in thorough (and for C02 always up to the exhaustive bound) */
@@ -117,6 +134,13 @@ static void build_cfg_list(void)
 			/* staircases longer than 2^12 (and, in thorough, 2^14) equations: the depth of one peeling chain is bounded by n-k only */
 			add_cfg(3, 0, 6000, 6000, 3, 1, 1); add_cfg(3, 0, 1200, 9000, 4, 16807, 1);
 			if (T) { add_cfg(3, 0, 9000, 6000, 5, 2, 1); add_cfg(3, 0, 2000, 20000, 3, 3, 1); add_cfg(3, 0, 20000, 10000, 3, 1, 1); add_cfg(3, 0, 25000, 25000, 3, 5, 1); /* n at the codec limit: tens of thousands of nested calls */ }
+		}
+		/* n-k on and next to every power of two up to 2^15 (2^j - 1 covers the Mersenne numbers): strides, masks, table sizes and
+		 * counters that depend on the number of repair symbols change behaviour there */
+		for (unsigned j = 5; j <= 15; j++) for (int d = -1; d <= 1; d++) {
+			uint32_t rr = (uint32_t)((1 << j) + d), k = j >= 10 ? 200 : 40;
+			if (!T && j >= 8 && j <= 12 && d == 1) continue;
+			add_cfg(3, 0, k, rr, (j & 1) ? 5 : 3, seeds[(j + (unsigned)(d + 1)) % 8], 1);
 		}
 		/* extra-entry counts of exactly 256 and 512 (2(n-k) - N1*k at low rates): a count or flag narrowed to 8 bits reads zero there */
 		add_cfg(3, 0, 10, 148, 4, 1, 1); add_cfg(3, 0, 64, 256, 4, 16807, 1); add_cfg(3, 0, 30, 218, 6, 2, 1); add_cfg(3, 0, 10, 276, 4, 3, 1);
@@ -170,13 +194,14 @@ static void run_one(const block_t *b, const uint8_t *inset, uint64_t maskdesc, i
 {
 	const cfg_t *c = &b->c; uint32_t n = b->n, k = c->k;
 	hist_t hi; memset(&hi, 0, sizeof hi);
-	hi.api = pick(g_pf.apis, h >> 3);
+	hi.api = g_force_api >= 0 ? g_force_api : pick(g_pf.apis, h >> 3);
 	hi.finish = g_pf.finish == 2 ? (int)((h >> 7) % 3 != 0) : g_pf.finish;
 	if (g_pf.cb == 1) hi.cbmode = 1 + (int)((h >> 11) % 5); else if (g_pf.cb == 2) hi.cbmode = ((h >> 11) % 3 == 0) ? 1 + (int)((h >> 17) % 5) : 0;
 	if (g_pf.roles) hi.roles = (int)((h >> 23) % 4 == 0 ? 1 + ((h >> 29) % 3) : 0);
 	else hi.roles = (int)((h >> 23) % 16 == 0 ? 1 + ((h >> 29) % 3) : 0);      /* an encoder+decoder instance now and then */
 	hi.dupcopy = 1;
 	g_session_preprobe = (h >> 51) % 5 == 0;
+	g_session_verbosity = (h >> 55) % 4 == 3 ? 2 : (h >> 55) % 4 == 2 ? 1 : 0;
 	hi.reenter = hi.cbmode && (h >> 43) % 4 == 0;
 	int order = hi.api == 1 ? 0 : (int)((h >> 31) % (g_pf.dups ? 5 : 4));
 	hi.nsub = make_sequence(inset, n, k, order, r);
@@ -190,7 +215,7 @@ static void run_one(const block_t *b, const uint8_t *inset, uint64_t maskdesc, i
 		      codec_name(c), c->k, c->r, c->L, c->N1, c->seed, hi.api, hi.finish, hi.cbmode, hi.roles, hi.stop, order, hi.nsub, ms)) return;
 	hres_t res;
 	run_history(b, &hi, g_pf.mon, &res);
-	g_session_preprobe = 0;
+	g_session_preprobe = 0; g_session_verbosity = 0;
 	int nontrivial;
 	switch (g_run.prop[2]) {
 	case '1': nontrivial = g_run.prop[1] == '0' ? (res.decoded_it + res.decoded_fin) > 0 : res.callbacks > 0; break;          /* C01 / C11 */
@@ -200,6 +225,7 @@ static void run_one(const block_t *b, const uint8_t *inset, uint64_t maskdesc, i
 	case '0': nontrivial = hi.finish || hi.nsub > 0; break;                                                                     /* C10 */
 	default:  nontrivial = 1; break;                                                                                            /* C07 C08 */
 	}
+	if (n > 3000 && res.oracle_solvable >= 0) rep_count(res.oracle_solvable ? (res.it_incomplete ? "big_block_histories_solvable_by_elimination_only" : "big_block_histories_solvable_by_peeling") : "big_block_histories_unsolvable", 1);
 	if (res.decoded_it) rep_sample("decoded-during-submission");
 	if (res.decoded_fin) rep_sample("decoded-by-finish_decoding");
 	if (res.it_incomplete && res.oracle_solvable == 1) rep_sample("gaussian-elimination-decides-solvable");
@@ -284,6 +310,7 @@ int p_codec(void)
 			uint64_t uh = hash64(hash64(g_run.seed, ci), lv * 131 + sp);
 			c.L = g_pf.lens ? lens[(lv * 7 + ci) % nlens] : lens[(ci + lv) % nlens];
 			if (n > 3000) c.L = 4;
+			if (ce->Lforce) c.L = ce->Lforce;
 			if (c.codec == 2 && c.m == 4 && 0) c.L = c.L;
 			rng_t r = rng_make(g_run.seed, 5000 + ci, lv * 4096 + sp);
 			block_t b;
@@ -325,16 +352,30 @@ int p_codec(void)
 				rep_count("subsets_enumerated_exhaustively", hiu - lo);
 			} else {
 				unsigned ns = T ? g_pf.samples_thorough : g_pf.samples_quick;
-				if (n > 3000) ns = T ? 6 : 2; else if (n > 600) ns = ns / 20 + 2; else if (n > 100) ns = ns / 4 + 2;
+				if (n > 3000) ns = T ? 12 : (n > 20000 ? 3 : 6); else if (n > 600) ns = ns / 20 + 2; else if (n > 100) ns = ns / 4 + 2;
 				for (unsigned s = 0; s < ns; s++) {
 					uint64_t h = hash64(uh, 1000 + s);
 					/* received count concentrated where decoding is decided; plus the structured extremes */
 					uint32_t k = c.k; int cls = (int)(h % 16);
+					if (n > 3000 && s == 0) cls = 3;
+					if (ce->all_by_table) { cls = s == 0 ? 0 : cls; g_force_api = s == 0 ? 1 : -1; }      /* big blocks get few histories: one of them is 'every repair symbol and no source' */
 					memset(inset, 0, n);
 					uint32_t want;
 					if (cls == 0) want = n; else if (cls == 1) want = 0;
 					else if (cls == 2) { for (uint32_t e = 0; e < k; e++) inset[e] = 1; want = ~0u; }
 					else if (cls == 3) { for (uint32_t e = k; e < n; e++) inset[e] = 1; want = ~0u; }
+					else if (c.codec == 3 && (cls < 8 || (n > 3000 && s >= 1))) {
+						/* two-rate reception: a fraction of the sources survives, and a number of repair symbols between one and three
+						 * times the number of lost sources: at low code rates this is where recoverability is decided, a uniform
+						 * subset of k(1+eps) symbols is almost all repair symbols there and never determines the block */
+						uint32_t keepq = rng_below(&r, 4), lostn = 0;
+						for (uint32_t e = 0; e < k; e++) { inset[e] = rng_below(&r, 4) < keepq; lostn += !inset[e]; }
+						uint32_t mr = lostn + rng_below(&r, 2 * lostn + 2); if (mr > c.r) mr = c.r;
+						sub_reserve((size_t)n * 2 + 8);
+						for (uint32_t e = 0; e < c.r; e++) g_sub[e] = k + e;
+						for (uint32_t i = 0; i < mr; i++) { uint32_t j = i + rng_below(&r, c.r - i); uint32_t t = g_sub[i]; g_sub[i] = g_sub[j]; g_sub[j] = t; inset[g_sub[i]] = 1; }
+						want = ~0u;
+					}
 					else {
 						int32_t lo_ = (int32_t)k - 2, hi_ = (int32_t)(k + (k + 4) / 5 + 2);
 						if (c.codec == 3) hi_ = (int32_t)(k + (k * 3) / 20 + 4);
@@ -348,6 +389,7 @@ int p_codec(void)
 						for (uint32_t i = 0; i < want && i < n; i++) { uint32_t j = i + rng_below(&r, n - i); uint32_t t = g_sub[i]; g_sub[i] = g_sub[j]; g_sub[j] = t; inset[g_sub[i]] = 1; }
 					}
 					run_one(&b, inset, 0, 0, h, &r, 0);
+					g_force_api = -1;
 				}
 			}
 			if ((g_pf.mon & MON_C04) && ce->large && c.codec == 3)
